@@ -72,6 +72,11 @@ func doRequest(request *http.Request, executor failsafe.Executor[*http.Response]
 	}
 
 	return executor.GetWithExecution(func(exec failsafe.Execution[*http.Response]) (*http.Response, error) {
+		// Close the response of a previous attempt that is being retried, since it will never be returned to the caller
+		if lastResp := exec.LastResult(); lastResp != nil && lastResp.Body != nil {
+			_ = lastResp.Body.Close()
+		}
+
 		ctx, cancel := util.MergeContexts(request.Context(), exec.Context())
 		req := request.WithContext(ctx)
 
